@@ -10,6 +10,7 @@ import env
 import gen
 import oracles
 from fakes import MISSING, World
+from boracles import unit_buf_twin, unit_c07_scenarios, unit_buf_conflict  # noqa: F401  (work units)
 
 _md = None
 
